@@ -40,7 +40,9 @@ RULE = ("kinds: pair-exact (dyadic boxes, integer-row cones incl. N>m, N<m, 3-D;
         "random; exhaustive {0,1,2}-lattice boxes in thorough), pair-float (bundled cone families, random "
         "angles, random N×m, data scales 1e-3…1e3, margin-targeted edge cases), pair-tie (3-D/4-D cones in which a "
         "box edge/diagonal keeps one W-coordinate constant while others move oppositely, R1 tied exactly to that "
-        "constant just above the bounding-box corner of the segment), pess (2–7 designs, S/P split, three "
+        "constant just above the bounding-box corner of the segment), pair-dtype (bounds given as int64/int32 "
+        "arrays or Python int lists with the other bound fractional float64/float32/list, non-orthant cones, "
+        "filtered so that the fractional part decides the verdict), pess (2–7 designs, S/P split, three "
         "algorithm classes; mutual-domination shapes: identical regions, shared lower corners, default ±1e12 "
         "boxes, chains + cycles), seg (single intersections), hist (query – mutate – query histories on the same "
         "region objects of one design space: update with intersect_iteratively True/False, intersect overlapping/"
@@ -294,6 +296,80 @@ def gen_pair_tie(rng):
     c = gen_pair_exact(rng, cname)
     c["shape"] = "const-coord-tie"
     return c
+
+
+INT_TYPES = ["int64", "int32", "pyint"]
+FLT_TYPES = ["float64", "float32", "pyfloat"]
+
+
+def _typed(v, t):
+    """a bound vector in the container/dtype named t (values are exactly representable there)"""
+    if t == "pyint":
+        return [int(x) for x in v]
+    if t == "pyfloat":
+        return [float(x) for x in v]
+    if t.startswith("int"):
+        return np.array([int(x) for x in v], dtype=t)
+    return np.array(v, dtype=t)
+
+
+def gen_pair_dtype(ctx, rng):
+    """rectangles whose bounds arrive in integer containers (int64 / int32 arrays, Python int lists) with the
+    other bound fractional (float64 / float32 arrays, float lists): the comparison must be about the VALUES.
+    Candidates are filtered with the exact reference so that in most cases the fractional part of a bound
+    decides the verdict (the verdict for the values differs from the verdict for the bounds truncated towards
+    zero), with non-orthant cones."""
+    p = 3
+    case = None
+    for attempt in range(80):
+        if rng.random() < 0.6:
+            cname = rng.choice(["acute2", "obtuse2", "skew2", "rot2", "narrow2", "wide2", "threefacet2", "acute3",
+                                "tie3a", "redundant2"])
+            cone, W, exact = cname, np.array(exact_cone(cname), dtype=float), True
+        else:
+            cone = {"named": ["theta", rng.choice([20, 45, 60, 120, 150])]}
+            W, exact = cone_W(cone), False
+        m = W.shape[1]
+
+        def box():
+            l = [float(rng.randint(-3, 3)) for _ in range(m)]
+            u = [a + rng.choice([0, 1, 2, 4, 5, 6, 7, 9, 12, 20]) / 2 ** p for a in l]
+            tl = rng.choice(INT_TYPES)
+            tu = rng.choice(FLT_TYPES)
+            r = rng.random()
+            if r < 0.25:  # integer upper, fractional lower
+                u = [float(rng.randint(-2, 4)) for _ in range(m)]
+                l = [b - rng.choice([0, 1, 3, 4, 7, 12]) / 2 ** p for b in u]
+                tl, tu = rng.choice(FLT_TYPES), rng.choice(INT_TYPES)
+            elif r < 0.35:  # both float: control
+                tl = rng.choice(FLT_TYPES)
+            return l, u, tl, tu
+
+        l1, u1, t1l, t1u = box()
+        l2, u2, t2l, t2u = box()
+        if rng.random() < 0.4 and t1l in INT_TYPES and t1u in FLT_TYPES:  # R1 a thin box / point near R2
+            k = rng.randrange(len(l1))
+            u1 = list(l1)
+            u1[k] = l1[k] + rng.choice([0, 3, 7]) / 2 ** p
+        case = {"kind": "pair", "exact": exact, "cone": cone, "l1": l1, "u1": u1, "l2": l2, "u2": u2,
+                "dtypes": [t1l, t1u, t2l, t2u], "shape": "dtype-random"}
+        if any(t in INT_TYPES and any(x != int(x) for x in v)
+               for t, v in zip((t1l, t1u, t2l, t2u), (l1, u1, l2, u2))):
+            continue
+        # does truncation towards zero of the float bounds (what a dtype-of-lower container would do) decide?
+        tr = [[float(int(x)) for x in v] for v in (l1, u1, l2, u2)]
+        if any(a > b for a, b in zip(tr[0], tr[1])) or any(a > b for a, b in zip(tr[2], tr[3])):
+            continue
+        ws = core.qmat(W)
+        z = core.qvec([0] * W.shape[0])
+        a = ctx.ask("ref", ws, *[core.qvec(v) for v in (l1, u1, l2, u2)], z)
+        b = ctx.ask("ref", ws, *[core.qvec(v) for v in tr], z)
+        if a in ("0", "1") and b in ("0", "1") and a != b:
+            case["shape"] = "dtype-decisive"
+            return case
+        if attempt > 50 and rng.random() < 0.1:
+            break
+    return case
 
 
 def gen_cone_float(rng):
@@ -599,8 +675,10 @@ def gen(ctx):
         r = rng.random()
         if r < 0.34:
             yield gen_pair_exact(rng)
-        elif r < 0.44:
+        elif r < 0.41:
             yield gen_pair_tie(rng)
+        elif r < 0.46:
+            yield gen_pair_dtype(ctx, rng)
         elif r < 0.74:
             yield gen_pair_float(rng)
         elif r < 0.81:
@@ -675,7 +753,19 @@ def run_pair(ctx, case):
     ctx.count("cone_%dx%d" % W.shape)
     if not real_ctor:
         ctx.count("order_stub_used")
-    R1, R2 = _rect(l1, u1), _rect(l2, u2)
+    if "dtypes" in case:
+        from vopy.confidence_region import RectangularConfidenceRegion
+
+        t = case["dtypes"]
+        ctx.count("dtype_" + "/".join(t))
+        try:
+            R1 = RectangularConfidenceRegion(len(l1), _typed(l1, t[0]), _typed(u1, t[1]))
+            R2 = RectangularConfidenceRegion(len(l2), _typed(l2, t[2]), _typed(u2, t[3]))
+        except Exception as e:
+            ctx.violation("crash:" + core.exc_key(e), f"constructor raised {type(e).__name__}: {e}", case)
+            return
+    else:
+        R1, R2 = _rect(l1, u1), _rect(l2, u2)
     try:
         real = bool(confidence_region_check_dominates(order, R1, R2))
     except Exception as e:
@@ -683,6 +773,23 @@ def run_pair(ctx, case):
         return
     ws = core.qmat(W)
     q = [core.qvec(v) for v in (l1, u1, l2, u2)]
+    # ---- (F) hyperrectangle_get_vertices on the bounds as given = the model's vertex list of the VALUES
+    verts_ok = True
+    for nm, R, lo_, up_ in (("R1", R1, l1, u1), ("R2", R2, l2, u2)):
+        try:
+            Vr = np.asarray(hyperrectangle_get_vertices(R.lower, R.upper))
+            got = core.qmat(Vr) if Vr.size else "_"
+            kind_ok = Vr.dtype.kind in "fiu"  # an all-integer rectangle may stay integer; the VALUES must be exact
+        except Exception as e:
+            got, kind_ok = "raised " + type(e).__name__, False
+        want = ctx.ask("verts", core.qvec(lo_), core.qvec(up_))
+        if got != want or not kind_ok:
+            verts_ok = False
+            ctx.violation("vertices-mirror", f"hyperrectangle_get_vertices({nm}.lower, {nm}.upper) is not the "
+                          "numeric array of the 2^m vertices of the given bounds in itertools.product order", case, kind="F",
+                          detail={"impl": got, "dtype_float": kind_ok, "model": want,
+                                  "containers": case.get("dtypes")})
+            break
     # ---- (F) element-wise mirror of is_pt_in_extended_polytope on the code's own transformed vertices
     V1 = hyperrectangle_get_vertices(R1.lower, R1.upper) @ W.transpose()
     V2 = hyperrectangle_get_vertices(R2.lower, R2.upper) @ W.transpose()
@@ -731,7 +838,7 @@ def run_pair(ctx, case):
                       "(certified infeasible, even relaxed by 1e-9*scale)", case,
                       detail={"impl": real, "reference_relaxed": lo})
     if (not real) and hi is True and _is2x2(W):
-        if mirror_ok:
+        if mirror_ok and verts_ok:
             ctx.violation("complete2x2-float-rounding",
                           "2x2 cone: every vertex of R1 dominates a point of R2 with margin >= 1e-6*scale but "
                           "check_dominates answered False; reproduced by the binary64 mirror (the intersection "
